@@ -3,7 +3,8 @@ EXTENDS TifaRobust
 Stmts == {"assign", "augassign", "exprstmt", "if", "while", "for", "defcall", "return", "print", "multiassign", "with", "try"}
 Exprs == {"int", "float", "str", "bool", "none", "list", "dict", "tuple", "set", "binop", "compare", "boolop", "unary",
           "call", "method", "subscript", "slice", "attribute", "listcomp", "dictcomp", "ifexp", "fstring", "lambda", "name", "ellipsis", "bytes", "complex", "tuplerep", "hugerep", "strrep", "lambdaarity",
-          "tupleneg", "tuplelast", "tuplefar", "emptyneg", "dictneg", "strneg"}
+          "tupleneg", "tuplelast", "tuplefar", "emptyneg", "dictneg", "strneg",
+          "litmethod", "lambdacall0", "elemcall", "numcall", "callcall", "startuple", "starsum", "deepnest", "slicestep", "sliceof", "condslice"}
 Ctxs == {"module", "function", "loop", "branch", "method"}
 Funcs == {"abs", "all", "any", "bool", "chr", "dict", "enumerate", "float", "input", "int", "isinstance", "len", "list",
           "map", "max", "min", "open", "ord", "pow", "print", "range", "repr", "reversed", "round", "set", "sorted", "str",
